@@ -69,3 +69,24 @@ claim("C16", "key-flow rules on the short-name allocator, byte-class evaluation 
 claim("C13", "syntactic sibling comparison and effect (yield-point) scan over the natives overlay, delegation table for math, typed signature agreement nosync vs sync, typestate analysis of the finite-state nosync types (transition functions derived from the method bodies, bisimulation with the specified sync automata)",
       "NARROW claim: decides only that the sync/atomic overlay families are structurally identical and yield-free, that pure delegations to JavaScript Math use the matching method and argument order and the bit-pattern pairs use the same buffer words, that nosync mirrors the signatures of sync without yield points, and that nosync.Mutex/RWMutex/WaitGroup/Once follow the sync automata on every uncontended operation sequence (counters explored to 3) and panic on contended or fatal ones. Value equality with the upstream implementations — the bulk of the property — is NOT decided by this technique family.",
       TB + " The natives overlay cannot be type-checked here (GOROOT mismatch): rules on it are syntactic.", "DESIGN.md §3 C13")
+
+# rules added after the fourth and fifth round of seeded changes (DESIGN.md §8); appended to the claim texts
+def more(pid, text):
+    CLAIMS[pid]["text"] += " Also decided (rules added after seeded changes, DESIGN.md §8): " + text
+
+more("C01", "the nil slice for an empty variadic argument list (guards of the slice-literal site), named results assigned by `return v`, argument evaluation order across suspension points, one product per carry column of $mul64, comment delimiters opened and closed in one literal with sanitised holes, Go labels kept apart from the dispatch loop's label; plus the sequential-semantics rules of C02/C04/C05/C06/C07/C08/C09/C10/C14/C15.")
+more("C02", "labelled break/continue re-dispatch through the labelled dispatch loop; every Go label site goes through the helper that renames the compiler's own label; all non-constant arguments saved when a later one suspends.")
+more("C04", "the shared, syntax-keyed type tables are only extended under nodes created on the spot (who-may-write rule, 22 sites); type-argument text inside a comment is sanitised.")
+more("C05", "the go:linkname set is filled completely before the dead-code selector queries it (phase order); the side-effect visitor prunes only after an effect was found.")
+more("C07", "range over an array (with a value variable) goes through the cloning helper.")
+more("C08", "array and struct types answer .comparable on demand from ALL component types (accessor shape; no copy at init time).")
+more("C09", "blank fields are skipped by $equal's struct arm and by the struct keyFor (sibling agreement); every `{}` table probed with a computed key is keyed by ids / prefixed keys or has no prototype, and presence tests on prototype objects are own-property tests.")
+more("C10", "the package path of a linkname target is cut at a position that data-depends on the last '/'; symbol.IsMethod inverts symbol.New.")
+more("C11", "getJsTag skips the separating spaces in every iteration of its pair loop; $sliceToNativeArray hands out the raw backing array only under a full-length test.")
+more("C12", "a blank overlay function or variable is not an override; the purge decision is taken per specification.")
+more("C13", "Ldexp's fast-path guard evaluated at the boundary exponents.")
+more("C14", "subarray bounds relative to $offset.")
+more("C15", "range over a map re-reads each entry and skips deleted ones, every read of the Map object set up for a range is nil-guarded; NaN-carrying components go through $floatKey and element keys stay strings; delete/lookup keys are converted to the key type.")
+more("C16", "WriteJS forwards esbuild's output verbatim.")
+more("C19", "the text handed to WriteJS and the file name are fields of one file record; the first-line test of the mapping offset uses the line number of the sourcemap decoder (read from the dependency's source).")
+more("C20", "the staleness bound covers .inc.js files.")
